@@ -54,6 +54,12 @@ CHECKS = {
         "At every reachable state (alphabet with embedded line breaks, heterogeneous field sets, two measurements sharing keys) all exploration getters, len, iteration, all() and their per-measurement handle versions are compared with the reference, on both serving paths and both storages.",
         E1NOTE, "4/C07",
     ),
+    "C08": (
+        "histmc", "model_checking",
+        "one explicit-state BFS per process time zone x instant cluster x storage x index path; integer-microsecond reference",
+        "For process TZ in {UTC, America/Los_Angeles, Australia/Lord_Howe, Asia/Kathmandu} and clusters of instants one microsecond apart (epoch, DST gap/fold instants, 1700, 1883, 2038, 2106, 2240): all depth-3 histories of inserts / updates (static and callable) / reopen over every representation of the instants (UTC, offsets, zoneinfo, naive local, gap/fold wall clock, None); every stored and returned time must be the exact instant as aware UTC, all six comparison operators and sorted order must agree with integer-microsecond arithmetic.",
+        E1NOTE + " Naive values are defined as local time through datetime.astimezone(), which the reference shares with the implementation.", "4/C08",
+    ),
     "C09": (
         "univ", "model_checking",
         "breadth-first closure of the query term algebra under the real constructors ~ & |, every term evaluated on every point of a finite universe against an independent evaluator",
